@@ -490,6 +490,9 @@ func (*CountingWindow).SetCallback
 func (*CountingWindow).Start$1
   props C09
   modifies *
+  observe seen := Now
+  before Unlock a-key-with-pending-rows-was-active-just-now: len(buf) < cw.threshold ==> dom(cw.lastActive, key) && cw.lastActive[key] == $seen
+  before Unlock a-fired-key-is-not-tracked-as-idle: len(buf) >= cw.threshold ==> !dom(cw.lastActive, key)
   before createSlot the-whole-buffer-of-the-key-fires: len(buf) == cw.threshold && buf[len(buf) - 1] == row
   before createSlot count-mirrors-buffer: cw.keyedCount[key] == len(buf)
   before sendResult batch-is-exactly-n-rows: len(data) == cw.threshold
